@@ -101,6 +101,14 @@ CplFlags(parts, size) ==
     \cup (IF \E i \in 1..Len(parts) : ~parts[i].crc THEN {"C01_PartsCarryReturnedChecksums"} ELSE {})
     \cup (IF Tiles(parts, 1, 0) # size THEN {"C01_PartsTileSource"} ELSE {})
 
+\* the part size the ChunksizeAdjuster arrives at for a transfer of known size: clamp into
+\* [minp, maxp], double while the object would need more than maxn parts, clamp again
+RECURSIVE DblO(_, _, _)
+DblO(c, size, maxn) == IF (size + c - 1) \div c > maxn /\ c < 1000000 THEN DblO(2 * c, size, maxn) ELSE c
+AdjChunk(cfg, size) ==
+    LET c0 == Max(Min2(cfg.chunk, cfg.maxp), cfg.minp) IN
+    Max(Min2(DblO(c0, size, cfg.maxn), cfg.maxp), cfg.minp)
+
 \* part planning against the limits in force (C14): every part but the last
 \* within [minp, maxp], at most maxn parts, and the configured chunk size is
 \* kept when it satisfies the limits for this size
@@ -217,7 +225,7 @@ S3End(o0, ev) ==
                  !.x[i].ranges = IF ev.op = "GetObject" /\ ok THEN @ \cup {<<ev.bs, ev.bl>>} ELSE @,
                  !.x[i].bigPart = @ \/ (ev.op \in {"UploadPart", "PutObject"} /\ xr.srck \in {"seekable", "nonseekable"}
                                             /\ ev.op = "UploadPart"
-                                            /\ ev.bl > Max(o3.cfg.chunk, o3.cfg.threshold)),
+                                            /\ ev.bl > Max(AdjChunk(o3.cfg, xr.size), o3.cfg.threshold)),
                  !.x[i].partDone = IF IsPartOp(ev.op) /\ ev.bl > 0 THEN @ + ev.bl
                                    ELSE IF ev.op = "PutObject" /\ ev.bl > 0 THEN @ + ev.bl ELSE @]
     IN o4
@@ -412,7 +420,7 @@ SrcRead(o0, ev) ==
     LET i == ev.x + 1 IN
     IF ~Known(o0, ev.x) THEN o0 ELSE
     LET o1 == [o0 EXCEPT !.x[i].srcRead = @ + ev.len]
-        bound == (o1.cfg.up_chunks + o1.cfg.S) * Max(o1.cfg.chunk, o1.cfg.threshold)
+        bound == (o1.cfg.up_chunks + o1.cfg.S) * Max(AdjChunk(o1.cfg, o1.x[i].size), o1.cfg.threshold)
         \* (once the transfer failed or was cancelled its part tasks are skipped and upload
         \*  nothing: the bytes read no longer show up as uploaded, the held parts are then
         \*  bounded by PartTask below)
